@@ -24,6 +24,11 @@ class Unit:
         self.uid = uid; self.title = title; self.props = tuple(props); self.tier = tier; self.timeout = timeout; self.weight = weight
     def run(self, ctx):
         raise NotImplementedError
+    def also(self, *props):
+        """list this unit under further properties: every obligation of it then counts for them too (used where a property depends on the
+        whole contract of a function whose clauses were written for, and are attributed to, another property)"""
+        self.extra_props = tuple(props); self.props = tuple(self.props) + tuple(p for p in props if p not in self.props)
+        return self
     def execute(self, ctx):
         t0 = time.time()
         try:
@@ -35,6 +40,9 @@ class Unit:
                 out = {"results": [Result(self.uid + "/bind", "proof", UNDECIDED, backend="ast", detail="%s: %s" % (type(e).__name__, e))]}
             else:
                 out = {"results": [Result(self.uid + "/crash", "proof", ERROR, backend="-", detail=traceback.format_exc()[-3000:])]}
+        for r in out.get("results", []):
+            if getattr(self, "extra_props", None) and r.get("props"):
+                r["props"] = list(r["props"]) + [p for p in self.extra_props if p not in r["props"]]
         out.setdefault("functions", []); out.setdefault("assumptions", []); out.setdefault("samples", []); out.setdefault("stats", {})
         out["unit"] = self.uid; out["title"] = self.title; out["kind"] = self.kind; out["wall_s"] = round(time.time() - t0, 3)
         return out
